@@ -771,7 +771,9 @@ func (f *c15Fixture) probes() []c15Probe {
 		{name: "POST " + addUserPath, kind: "HMutate", present: false, target: "dave",
 			req: func() *http.Request { return f.request("POST", addUserPath, "admin", url.Values{"username": {"dave"}}) }},
 		{name: "POST " + deleteUserPath, kind: "HDelete", present: true, target: "bob",
-			req: func() *http.Request { return f.request("POST", deleteUserPath, "admin", url.Values{"username": {"bob"}}) }},
+			req: func() *http.Request {
+				return f.request("POST", deleteUserPath, "admin", url.Values{"username": {"bob"}})
+			}},
 		{name: "POST " + generateBoostrapOTPPath, kind: "HMutate", present: true, target: "carol",
 			req: func() *http.Request {
 				return f.request("POST", generateBoostrapOTPPath, "admin", url.Values{"username": {"carol"}, "duration": {"1h"}})
